@@ -68,7 +68,7 @@ class Report:
             'property_id': self.prop, 'tier': self.tier, 'seed': self.seed, 'level': self.level,
             'coverage': {
                 'obligations': len(counted), 'discharged': len(proved),
-                'refuted': len(violations), 'undecided': len(undec), 'known_findings_refuted': len(refuted) - len(violations),
+                'refuted': len(violations), 'undecided': len(undec), 'undecided_in_bounded_sample': [o['name'] for o in undec if o.get('bounded')][:50], 'known_findings_refuted': len(refuted) - len(violations),
                 'checker_cmd': self.cmd,
                 'trusted_base': self.trusted,
                 'functions_under_contract': self.functions,
@@ -98,8 +98,12 @@ class Report:
         if self.errors: return 3
         if len(counted) == 0:
             print('CHECKER-ERROR: zero obligations generated'); return 3
-        if undec:
-            for o in undec[:20]: print('UNDECIDED:', o['name'], o.get('reason', ''))
+        # an obligation of a SAMPLED composed shape (bounded part, never counted as proved) that stays open after the retry is reported as
+        # not explored; an open obligation of the unbounded part (node lemmas, function-mode targets) makes the whole check undecided
+        hard = [o for o in undec if not o.get('bounded')]
+        for o in [o for o in undec if o.get('bounded')][:20]: print('SKIPPED-UNDECIDED (bounded sample, solver budget):', o['name'], o.get('reason', ''))
+        if hard:
+            for o in hard[:20]: print('UNDECIDED:', o['name'], o.get('reason', ''))
             return 2
         return 0
     def backend_counts(self):
